@@ -88,7 +88,19 @@ pub fn judge_case(c: &Case) -> Obs {
             obs.show = Some(shown.clone());
             obs.key = hash_of(&(&text, input));
             let dir = TempDir::new();
-            dir.write("prog.asm", text.as_bytes());
+            // how the files are called must not matter; a third of the compiles use the default
+            // destination (<source stem>.lc3 in the working directory)
+            let stem = cli::stem(obs.key >> 20);
+            let default_dest = (obs.key >> 12) % 3 == 0;
+            let src_name: &str = &format!("{stem}.asm");
+            let obj_name: &str = &format!("{stem}.lc3");
+            if stem != "prog" {
+                obs.label("unusual-file-name");
+            }
+            if default_dest {
+                obs.label("default-destination");
+            }
+            dir.write(src_name, text.as_bytes());
             let feat: Vec<&str> = if built.stack { vec!["-f", "stack"] } else { vec![] };
             // the destination may already hold the output of an earlier compile: unrelated bytes, the
             // object file of a longer / shorter version of this program, or this very image
@@ -99,26 +111,29 @@ pub fn judge_case(c: &Case) -> Obs {
             match obs.key % 8 {
                 0 | 1 => {
                     let stale: Vec<u8> = (0..(2 * img.words.len() + 2 + 64 + (obs.key % 7) as usize)).map(|i| (i * 7 + 3) as u8).collect();
-                    dir.write("prog.lc3", &stale);
+                    dir.write(obj_name, &stale);
                     obs.label("destination-held-an-older-longer-file");
                 }
                 2 => {
                     let mut stale = image.clone();
                     stale.extend((0..(2 + 2 * ((obs.key >> 8) % 12) as usize)).map(|i| [0xF0u8, 0x21, 0x00, 0x00, 0xF0, 0x25][i % 6]));
-                    dir.write("prog.lc3", &stale);
+                    dir.write(obj_name, &stale);
                     obs.label("destination-held-a-longer-version-of-this-program");
                 }
                 3 => {
-                    dir.write("prog.lc3", &image[..(image.len() / 4) * 2]);
+                    dir.write(obj_name, &image[..(image.len() / 4) * 2]);
                     obs.label("destination-held-a-prefix-of-this-image");
                 }
                 4 => {
-                    dir.write("prog.lc3", &image);
+                    dir.write(obj_name, &image);
                     obs.label("destination-held-this-image");
                 }
                 _ => {}
             }
-            let mut args = vec!["compile", "prog.asm", "prog.lc3"];
+            let mut args = vec!["compile", src_name];
+            if !default_dest {
+                args.push(obj_name);
+            }
             args.extend(&feat);
             let comp = cli::lace(&args, dir.path(), &[], false, 30);
             if !comp.ok() {
@@ -129,7 +144,7 @@ pub fn judge_case(c: &Case) -> Obs {
             for w in &img.words {
                 want.extend(w.to_be_bytes());
             }
-            let got = std::fs::read(dir.path().join("prog.lc3")).unwrap_or_default();
+            let got = std::fs::read(dir.path().join(obj_name)).unwrap_or_default();
             if got != want {
                 let sig = if got.len() != want.len() { "C06:object-file-wrong-length" } else { "C06:object-file-wrong-bytes" };
                 let at = got.iter().zip(&want).position(|(a, b)| a != b);
@@ -162,16 +177,16 @@ pub fn judge_case(c: &Case) -> Obs {
                 obs.excluded = Some("REG and ESC in one run");
                 return obs;
             }
-            let mut run_args = |file: &'static str| -> Vec<&str> {
-                let mut a = vec!["run", file];
+            let run_args = |file| -> Vec<&str> {
+                let mut a: Vec<&str> = vec!["run", file];
                 if minimal {
                     a.push("--minimal");
                 }
                 a.extend(&feat);
                 a
             };
-            let ra = cli::lace(&run_args("prog.asm"), dir.path(), input, false, 60);
-            let rb = cli::lace(&run_args("prog.lc3"), dir.path(), input, false, 60);
+            let ra = cli::lace(&run_args(src_name), dir.path(), input, false, 60);
+            let rb = cli::lace(&run_args(obj_name), dir.path(), input, false, 60);
             if ra.timed_out || rb.timed_out {
                 obs.excluded = Some("watchdog");
                 return obs;
@@ -181,7 +196,7 @@ pub fn judge_case(c: &Case) -> Obs {
                 let s = String::from_utf8_lossy(out).to_string();
                 s.replace(&banner("Assembling", &format!("target {name}")), "").replace(&banner("Completed", &format!("target {name}")), "").into_bytes()
             };
-            if ra.code != rb.code || strip(&ra.stdout, "prog.asm") != strip(&rb.stdout, "prog.lc3") {
+            if ra.code != rb.code || strip(&ra.stdout, src_name) != strip(&rb.stdout, obj_name) {
                 obs.set_fail(
                     "C06:object-file-behaves-differently",
                     format!("running the source: {}\nrunning the object file: {}\n{shown}", ra.brief(), rb.brief()),
@@ -192,8 +207,8 @@ pub fn judge_case(c: &Case) -> Obs {
             let unspecified = matches!(rr.stop, RunStop::Unspecified(_)) || input.iter().take(rr.consumed).any(|b| *b >= 0x80);
             if unspecified {
                 obs.label("reference-unspecified-only-equivalence-checked");
-            } else if check_run(&mut obs, "source-run", "prog.asm", &ra, &rr, &shown) {
-                check_run(&mut obs, "object-run", "prog.lc3", &rb, &rr, &shown);
+            } else if check_run(&mut obs, "source-run", src_name, &ra, &rr, &shown) {
+                check_run(&mut obs, "object-run", obj_name, &rb, &rr, &shown);
             }
             let prints = rr.out.iter().any(|o| matches!(o, Out::Ch(_))) && rr.features.trap_output;
             let has_label = !img.labels.is_empty();
